@@ -62,6 +62,12 @@ def np_sqrt(eng, args, kw):
     x = args[0]
     if isinstance(x, NDArr):
         return NDArr(mapnd(lambda v: np_sqrt(eng, [v], {}), x.data))
+    if isinstance(x, CX) and not isinstance(x.re, SV) and not isinstance(x.im, SV) and x.im == 0 and x.re >= 0:
+        import math as _m
+        fr = Fraction(x.re)
+        rn, rd = _m.isqrt(fr.numerator), _m.isqrt(fr.denominator)
+        if rn * rn == fr.numerator and rd * rd == fr.denominator:
+            return CX(Fraction(rn, rd), 0)          # exact root of a concrete non-negative rational square
     if isinstance(x, CX):
         # principal complex square root: uninterpreted, w*w = x, Re w >= 0
         fre = eng.uf('csqrt.re', z3.RealSort(), z3.RealSort(), z3.RealSort())
